@@ -861,7 +861,7 @@ func (dc *ClientDnsConnection) SwitchFragmentSize(requested uint32) error {
 			return err
 		} else if resp.Err != nil {
 			log.WithError(resp.Err).Warnf("Server error. Keeping default fragment size %v", resp.Err)
-			return err
+			return errors.WithStack(resp.Err)
 		} else {
 			dc.Serializer.Downstream.FragmentSize = requested
 			return nil
@@ -871,8 +871,8 @@ func (dc *ClientDnsConnection) SwitchFragmentSize(requested uint32) error {
 		return nil
 	}
 
-	log.Debugf("No reply from server when setting fragsize. Keeping default.")
-	return nil
+	// The server goes on sending fragments of its default size, which the path has not been shown to carry
+	return errors.Errorf("No reply from server when setting the downstream fragment size")
 }
 
 func (dc *ClientDnsConnection) Handshake() error {
